@@ -79,6 +79,7 @@ type Obligation struct {
 	File      string
 	PerSolver []string
 	Relaxed   bool
+	Raw       string // complete SMT-LIB text (hand-posed lemma)
 }
 
 type Enc struct {
